@@ -367,7 +367,52 @@ func c19Hostile(r *core.Rng) ast.Node {
 }
 
 func c19Session(r *core.Rng) ([]ast.Node, string) {
-	switch r.Intn(5) {
+	switch r.Intn(7) {
+	case 6: // the failing generator runs in a recycled context whose previous generator was dropped while suspended d calls deep
+		f, _ := faultExpr(r, r.Intn(6))
+		d := int64(r.Range(0, 6))
+		defs := []ast.Node{
+			ast.Assign{Name: "zdy", Value: ast.FuncLit{Params: []string{"k"}, Body: ast.If{Cond: ast.Binary{Op: "<=", L: nm("k"), R: il(0)}, Then: ast.Block{Stmts: []ast.Node{ast.Yield{X: il(7)}, ast.Yield{X: il(8)}}}, Else: icall("zdy", ast.Binary{Op: "-", L: nm("k"), R: il(1)})}}},
+			ast.Assign{Name: "zbadg", Value: ast.FuncLit{Params: []string{"n"}, Body: ast.Block{Stmts: []ast.Node{ast.Yield{X: nm("n")}, ast.Yield{X: f}}}}},
+		}
+		first := ast.For{Vars: []string{"a", "b"}, Iters: []ast.Node{icall("zdy", il(d)), icall("fromto", il(0), il(1))}, Body: nm("a")}
+		var firstAlt ast.Node = ast.For{Vars: []string{"a"}, Iters: []ast.Node{icall("zdy", il(d))}, Body: ast.If{Cond: ast.Binary{Op: "==", L: nm("a"), R: il(7)}, Then: ast.Assign{Name: "seen", Value: nm("a")}}}
+		second := ast.For{Vars: []string{"v"}, Iters: []ast.Node{icall("zbadg", il(int64(r.Intn(9))))}, Body: nm("v")}
+		var loops []ast.Node
+		if r.Bool() {
+			loops = []ast.Node{first, second}
+		} else {
+			loops = []ast.Node{first, firstAlt, second}
+		}
+		if r.Bool() {
+			return append(defs, ast.Block{Stmts: loops}), "recycled-context"
+		}
+		return append(defs, ast.Assign{Name: "zboth", Value: ast.FuncLit{Params: []string{"q"}, Body: ast.Block{Stmts: loops}}}, icall("zboth", il(1))), "recycled-context-in-function"
+	case 5: // callees named through captured variables at the call site
+		f, _ := faultExpr(r, r.Intn(6))
+		switch r.Intn(3) {
+		case 0:
+			return []ast.Node{
+				ast.Assign{Name: "zbad", Value: ast.FuncLit{Params: []string{"a", "b"}, Body: ast.If{Cond: ast.Binary{Op: ">", L: nm("a"), R: nm("b")}, Then: f, Else: nm("a")}}},
+				ast.Assign{Name: "zmk", Value: ast.FuncLit{Params: []string{"fcap"}, Body: ast.FuncLit{Params: []string{"x"}, Body: icall("fcap", nm("x"), il(0))}}},
+				ast.Assign{Name: "zh", Value: icall("zmk", nm("zbad"))},
+				icall("zh", il(int64(r.Range(1, 9)))),
+			}, "captured-callee"
+		case 1:
+			return []ast.Node{
+				ast.Assign{Name: "zouter", Value: ast.FuncLit{Params: []string{"n"}, Body: ast.Block{Stmts: []ast.Node{
+					ast.Assign{Name: "zrec", Value: ast.FuncLit{Params: []string{"k"}, Body: ast.If{Cond: ast.Binary{Op: "<=", L: nm("k"), R: il(0)}, Then: f, Else: icall("zrec", ast.Binary{Op: "-", L: nm("k"), R: il(1)})}}},
+					icall("zrec", nm("n"))}}}},
+				icall("zouter", il(int64(r.Range(0, 5)))),
+			}, "captured-recursive-helper"
+		default:
+			return []ast.Node{
+				ast.Assign{Name: "zsrc", Value: ast.FuncLit{Params: []string{"n"}, Body: ast.Block{Stmts: []ast.Node{ast.Yield{X: nm("n")}, ast.Yield{X: f}}}}},
+				ast.Assign{Name: "zit", Value: ast.FuncLit{Params: []string{"gcap"}, Body: ast.FuncLit{Params: []string{"m"}, Body: ast.For{Vars: []string{"v"}, Iters: []ast.Node{icall("gcap", nm("m"))}, Body: nm("v")}}}},
+				ast.Assign{Name: "zrun", Value: icall("zit", nm("zsrc"))},
+				icall("zrun", il(int64(r.Range(1, 9)))),
+			}, "captured-iterator"
+		}
 	case 4: // awkward parameter and operand values
 		fault := []ast.Node{
 			ast.Binary{Op: "-", L: nm("p"), R: il(1)},
@@ -538,6 +583,6 @@ func init() {
 		Families: []core.Family{
 			{Name: "reports", Count: countFn(12000, 1500000), Run: c19Case},
 		},
-		Floors: []core.Floor{{Key: "reports_checked", Quick: 3000, Thor: 300000}, {Key: "frames_checked", Quick: 8000, Thor: 800000}, {Key: "reports_from_inside_generators", Quick: 500, Thor: 50000}, {Key: "tag:err:", Quick: 7, Thor: 7}, {Key: "tag:op:", Quick: 12, Thor: 12}, {Key: "tag:failure-at:", Quick: 16, Thor: 16}},
+		Floors: []core.Floor{{Key: "reports_checked", Quick: 3000, Thor: 300000}, {Key: "frames_checked", Quick: 8000, Thor: 800000}, {Key: "reports_from_inside_generators", Quick: 500, Thor: 50000}, {Key: "tag:err:", Quick: 7, Thor: 7}, {Key: "tag:op:", Quick: 12, Thor: 12}, {Key: "tag:failure-at:", Quick: 21, Thor: 21}},
 	})
 }
